@@ -674,6 +674,20 @@ PROPS["C05"] = dict(
     ],
 )
 
+# compiler unit harnesses: Compiler::new() builds a default program (16-slot tables are zero-filled)
+_CX_LIM = {
+    r"SpecFill<cao_lang::prelude::Handle>>::spec_fill$#0": 18,
+    r"hash_map::CaoHashMap::<.*>::(grow|adjust_capacity)$": 0,
+}
+
+
+def _cx(name, tier="quick", bounds="", **kw):
+    lim = dict(_CX_LIM)
+    lim.update(kw.pop("limits", {}))
+    kw.setdefault("stubbing", True)
+    return H("c08", name, tier, bounds=bounds, limits=lim, **kw)
+
+
 # --------------------------------------------------------------------------- C10
 PROPS["C10"] = dict(
     functions=[
@@ -708,6 +722,14 @@ PROPS["C10"] = dict(
         H("c10", "c10_decode_str_total_6", bounds="decode_str on any 0..=6 bytes"),
         H("c10", "c10_decode_str_total_8", "thorough", bounds="decode_str on any 0..=8 bytes"),
         H("c10", "c10_span_table", bounds="span for every byte value"),
+        H("c08", "cx_compile_probe", "x", bounds="probe: compile main=[SetGlobalVar g = ScalarInt x]", stubbing=True, timeout=1500),
+        _cx("cx_resolve_var_d0", "x", bounds="resolve_var, one function level"),
+        _cx("cx_resolve_var_d1", "x", bounds="resolve_var, closure in function"),
+        _cx("cx_resolve_var_d2", "x", bounds="resolve_var, closure in closure in function"),
+        _cx("cx_scope_end_emits", "x", bounds="scope_end"),
+        _cx("cx_super_depth_7", "x", bounds="super_depth, 7 bytes"),
+        _cx("cx_super_depth_9", "x", bounds="super_depth, 9 bytes"),
+        _cx("cx_super_depth_13", "x", bounds="super_depth, 13 bytes"),
     ],
 )
 
@@ -870,6 +892,12 @@ PROPS["C03"] = dict(
             bounds="Vm::run_function on an endless script function with 1..=3 instructions left of a budget of 4",
             limits={r"vm::Vm::<.*>::run_function$#*": 3}),
         _vm("c03", "c03_sufficient_budget", "x", dispatches=4, bounds="[int x][SetGlobal 0][Exit] under budget 4..=7"),
+        _vm("c03", "c03_run_function_exit_only", "x", dispatches=2,
+            bounds="Vm::run_function on [Exit] with R instructions left of a budget M (2 <= R <= M < 2^32, both solver-chosen): exactly R-1 are left afterwards",
+            limits={r"vm::Vm::<.*>::run_function$#*": 3}),
+        _vm("c03", "c03_run_function_exit_only_exhausted", "x", dispatches=2,
+            bounds="Vm::run_function on [Exit] with 0 or 1 instructions left of any budget: Timeout, nothing dispatched",
+            limits={r"vm::Vm::<.*>::run_function$#*": 3}),
         _vm("c03", "c03_nested_budget", "x", dispatches=6, bounds="native -> run_function(endless) under budget 3..=5",
             limits={r"vm::Vm::<.*>::_run$": 1, r"vm::Vm::<.*>::run_function$": 0}),
     ],
@@ -945,6 +973,9 @@ PROPS["C15"] = dict(
         _vm("c15", "c15_addr_stackoverflow", dispatches=2, bounds="ScalarInt on a full stack (8 operand bytes)"),
         _vm("c15", "c15_addr_unknown_global", "thorough", dispatches=2, bounds="ReadGlobalVar of an unknown id (4 operand bytes)"),
         _vm("c15", "c15_addr_timeout", dispatches=2, bounds="budget exhausted before the second instruction"),
+        _vm("c15", "c15_call_chain_order", "x", dispatches=2, frames=4,
+            bounds="missing native below three call frames with solver-chosen call-site addresses (all u32): frames are visited innermost first",
+            limits={r"hash_map::CaoHashMap::<.*>::find_ind::<.*>#0": 5}),
         _vm("c15", "c15_missing_native_depth0", "x", dispatches=2, bounds="missing native at depth 0"),
         _vm("c15", "c15_missing_native_depth1", "x", dispatches=2, bounds="missing native below one call frame"),
         _vm("c15", "c15_get_property_depth0", "x", dispatches=2, bounds="GetProperty on an integer"),
